@@ -452,4 +452,30 @@ Section Proofs.
         intros m. rewrite Hl', Hl. reflexivity.
   Qed.
 
+  (* ---- views obtained from the context: Clone / CloneWith copies show what the context shows *)
+
+  Lemma clone_with_view (c pooled : ctx R) :
+    c_route (clone_with c pooled) = c_route c /\ ctx_params (clone_with c pooled) = ctx_params c /\
+    c_scope (clone_with c pooled) = c_scope c.
+  Proof. unfold clone_with, ctx_params. simpl. destruct (c_tsr c); auto. Qed.
+
+  Lemma clone_view (c : ctx R) :
+    c_route (clone c) = c_route c /\ ctx_params (clone c) = ctx_params c /\ c_scope (clone c) = c_scope c.
+  Proof. unfold clone, ctx_params. simpl. destruct (c_tsr c); auto. Qed.
+
+  (* C11: the copies a special handler (or a middleware on its scope) takes of the context are scrubbed
+     too, whatever the pooled context they are built on held before *)
+  Theorem special_clones_scrubbed rq c0 recp rect o pooled :
+    serve_http rq c0 recp rect = Done o ->
+    (forall r, o_handler o <> HRoute r) ->
+    (c_route (clone_with (o_ctx o) pooled) = None /\ ctx_params (clone_with (o_ctx o) pooled) = [] /\
+     c_scope (clone_with (o_ctx o) pooled) = scope_of (o_handler o)) /\
+    (c_route (clone (o_ctx o)) = None /\ ctx_params (clone (o_ctx o)) = [] /\
+     c_scope (clone (o_ctx o)) = scope_of (o_handler o)).
+  Proof.
+    intros Hs Hh. destruct (special_ctx_scrubbed rq c0 recp rect o Hs Hh) as [H1 [H2 [_ [H4 _]]]].
+    destruct (clone_with_view (o_ctx o) pooled) as [A1 [A2 A3]]. destruct (clone_view (o_ctx o)) as [B1 [B2 B3]].
+    rewrite A1, A2, A3, B1, B2, B3. auto.
+  Qed.
+
 End Proofs.
